@@ -159,13 +159,15 @@ def tags_octets(taglist):
 
 def _carrier(number):
     return type("AnyCarrier%d" % number, (CD.Sequence,),
-                {"sequenceElements": [CD.Element("value", CD.Any, number), CD.Element("tail", PD.Unsigned, 7)]})
+                {"sequenceElements": [CD.Element("value", CD.Any, number), CD.Element("tail", PD.Unsigned, 7),
+                                      CD.Element("label", PD.CharacterString, 20)]})
 
 
 # a property value on the wire: the value inside an Any inside context N, followed by something else (WriteProperty,
 # ReadPropertyACK, PropertyValue ... all have this form; N = 0..3 are the numbers the standard uses for it)
 CARRIERS = [(n, _carrier(n)) for n in (0, 1, 2, 3)]
-CARRIER_TAIL = bytes([0x79, 0x05])
+# ... [7] 5, [20] "pump-12" (a vendor structure: extended tag number and extended length in one tag)
+CARRIER_TAIL = bytes([0x79, 0x05, 0xFD, 0x14, 0x08, 0x00]) + b"pump-12"
 
 
 class Comparer(object):
@@ -537,7 +539,7 @@ def check_value(ctx, tname, v, reg=None, choice=None, variant="list", observe=No
         for number, carrier_cls in CARRIERS:
             exp = bytes([(number << 4) | 0x0E]) + data + bytes([(number << 4) | 0x0F]) + CARRIER_TAIL
             try:
-                wire = _encode_plain(carrier_cls(value=carrier, tail=5))
+                wire = _encode_plain(carrier_cls(value=carrier, tail=5, label="pump-12"))
             except Exception as err:
                 raise Fail("any-on-the-wire", _exc_kind("encode-raises", err), _msg(err))
             if wire != exp:
@@ -549,7 +551,7 @@ def check_value(ctx, tname, v, reg=None, choice=None, variant="list", observe=No
                 back2.decode(tl)
                 left = len(tl.tagList)
                 held2 = tags_octets(back2.value.tagList)
-                tail = back2.tail
+                tail = back2.tail if back2.label == "pump-12" else (back2.tail, back2.label)
             except Exception as err:
                 raise Fail("any-on-the-wire", _exc_kind("decode-raises", err), "context %d: %s" % (number, _msg(err)))
             if held2 != data or tail != 5 or left:
@@ -840,7 +842,10 @@ def run_one(ctx, acc, cfg, target, size, index, rot, ordinal, seed):
         try:
             check_value(ctx, tname, v, reg, choice, variant, obs)
         except Fail as f:
-            # a contradiction must reproduce: the same value twice more, same oracle and kind, or it is the harness
+            # the same value twice more: same oracle and kind.  All inputs are the harness's own, so a contradiction
+            # that does not repeat the same way means the codec's answer depends on what it did before (itself a
+            # violation: reported under its own signature, without localisation)
+            unstable = None
             for _ in range(2):
                 try:
                     check_value(ctx, tname, v, reg, choice, variant)
@@ -848,7 +853,18 @@ def run_one(ctx, acc, cfg, target, size, index, rot, ordinal, seed):
                 except Fail as f2:
                     again = (f2.oracle, f2.kind)
                 if again != (f.oracle, f.kind):
-                    raise HarnessError("C03: %s %s failed with %s:%s and then with %r" % (tname, G.render(v, 200), f.oracle, f.kind, again))
+                    unstable = again
+                    break
+            if unstable is not None or getattr(acc, "_unstable", False):
+                acc._unstable = True
+                acc.outcome("history-dependent")
+                acc.fail("history:%s:failure-does-not-repeat-the-same-way" % sanitize(tname),
+                         {"type": tname, "value": G.render(v), "first": "%s:%s" % (f.oracle, f.kind), "then": repr(unstable),
+                          "message": f.message},
+                         {"kind": "shape", "type": tname, "registry": reg, "choice": choice, "size": size, "index": index,
+                          "rot": rot, "ordinal": ordinal, "seed": seed, "max_list": cfg["max_list"], "budget": cfg["budget"],
+                          "variant": variant})
+                continue
             service_level = f.oracle in ("registry", "trailing-tag") or f.kind in ("apdu-octets-differ", "header-differs")
             sig = signature_for(ctx, filler, tname, v, f, variant, service_level)
             acc.outcome("%s:%s" % (f.oracle, f.kind))
@@ -1106,11 +1122,11 @@ def _determinism_probe(ctx, cfg, seed, tgts):
         return out
     a = once()
     b = once()
-    if a != b:
-        for x, y in zip(a, b):
-            if x != y:
-                raise HarnessError("C03: the same case gave two results: %r / %r" % (x, y))
+    if len(a) != len(b):
         raise HarnessError("C03: two passes over the same cases differ in length")
+    # every input is the harness's own and the codec has no clock or randomness: if the same value gives another
+    # verdict or other octets the second time, what a decode or encode returns depends on what was done before
+    return [(x, y) for x, y in zip(a, b) if x != y]
 
 
 def run(tier, seed, deadline):
@@ -1120,7 +1136,10 @@ def run(tier, seed, deadline):
     tgts = targets(ctx)
     part_schema(ctx, acc)
     part_annexf(ctx, acc)
-    _determinism_probe(ctx, cfg, seed, tgts[::7])
+    for x, y in _determinism_probe(ctx, cfg, seed, tgts[::7])[:20]:
+        acc.fail("history:%s:same-value-gives-another-result-the-second-time" % sanitize(x[0][0]),
+                 {"type": x[0][0], "value": x[4], "first": x[6], "second": y[6]},
+                 {"kind": "twice", "target": list(x[0])})
 
     # plan all targets, cut into work packages of 250 cases; packages are taken rank by rank (first package of every
     # type, then the second of every type, ...) so that a deadline cuts tails, never whole types
@@ -1180,6 +1199,13 @@ def replay(case):
                     return True, "vector %s: octets %s decode to the published parameters and back" % (vec["id"], vec["octets"])
                 return False, "vector %s (%s): %s %s" % (vec["id"], vec["octets"], f.kind, f.message)
         return False, "vector %s is not in annexf.json" % case["id"]
+    if kind == "twice":
+        cfg = TIERS["quick"]
+        diffs = _determinism_probe(ctx, cfg, 0, [tuple(case["target"])])
+        if diffs:
+            x, y = diffs[0]
+            return False, "%s %s\nfirst pass: %s\nsecond pass: %s" % (x[0][0], x[4], x[6], y[6])
+        return True, "%s: the first cases give the same result twice" % case["target"][0]
     if kind == "shape":
         tname = case["type"]
         if tname not in ctx.types:
